@@ -22,11 +22,17 @@ def main():
         annotated = rng.random() < 0.5
         def ann(n):
             return f'{n}-({int(rng.integers(1, 99))}; {int(rng.integers(0, 101))})' if annotated else n
-        order = int(rng.choice([1, 1, 2]))
+        order = int(rng.choice([1, 1, 2, 3]))
         base = [f'f{i}' for i in range(nf)]
+        if case % 3 == 0:
+            # feature names that merely START with the label's name / contain it are ordinary features
+            base = base + [str(x) for x in rng.choice(['label_count', 'labelled', 'xlabel', 'label2'], size=2, replace=False)]
         feats = list(base)
         if order > 1 and nf >= 2:
-            feats += [f'{a} AND {b}' for i, a in enumerate(base) for b in base[i + 1:]]
+            # interactions present in the table need not have the arity of the flag (a reference model adds pairs to an order-3 run)
+            feats += [f'{a} AND {b}' for i, a in enumerate(base[:4]) for b in base[i + 1:4]]
+            if order == 3 and nf >= 3:
+                feats += [f'{base[0]} AND {base[1]} AND {base[2]}']
         names = {f: ann(f) for f in feats + ['label']}
         rows = []
         n_batches = int(rng.integers(1, 4))
@@ -109,4 +115,4 @@ def main():
 
 
 if __name__ == '__main__':
-    sys.exit(main())
+    sys.exit(common.run_main(main))
